@@ -5,22 +5,43 @@
 //! the ids handed out, what `errors()` / `get_incomplete_chunk()` answer, and every chunk the
 //! `pending_data()` stream emits (as code points), for futures completing in the order the
 //! case dictates. Higher-level commands create real `Resource` / `OnceResource` /
-//! `SharedValue`s under an `Owner` that carries the same shared context.
+//! `SharedValue`s and real `<ErrorBoundary/>`s under an `Owner` that carries the same shared
+//! context.
+//!
+//! This file is compiled into two binaries: `h_hyd` (harness/hyd, feature `full`: every optional
+//! encoding of leptos_server, `leptos_integration_utils::build_response`) — the one `./check C12`
+//! runs — and `h_ssr` (without `full`; c06.rs uses the executor and the gate futures).
 //!
 //! case   : (0 text)                      -> per-char Debug class, computed by real Rust
 //!          (1 mode escset (cmd ...))     -> (entry ...)
+//! mode   : 0 SsrSharedContext::new() | 1 ::new_islands() | 4 ::default()
+//!          2 the context, owner and `<script>` wrapping of the real
+//!            `leptos_integration_utils::build_response` | 3 the same with a nonce provided
 //! cmd    : (0) next_id | (1 b) set_is_hydrating | (2 idsrc text) write_async
 //!          (3 idsrc idsrc text) register_error | (4 idsrc) seal_errors
 //!          (5 idsrc) set_incomplete_chunk | (6) pending_data | (7 k) complete future k
 //!          (8) poll the stream once | (9 idsrc) errors(boundary) | (10 idsrc) get_incomplete_chunk
 //!          (14 order) consume_buffers(), completing futures in `order` while it is pending
-//!          (12 kind codec text) Resource(0) / OnceResource(1) / SharedValue(2) with
-//!                               JsonSerdeCodec(0) / FromToStringCodec(1) / FromToBytesCodec(2: base64);
+//!          (12 kind codec text [variant]) Resource(0) / OnceResource(1) / SharedValue(2) with
+//!                               JsonSerdeCodec(0) / FromToStringCodec(1) / FromToBytesCodec(2: base64)
+//!                               MiniserdeCodec(3) / SerdeLite<JsonSerdeCodec>(4) / RkyvCodec(5) /
+//!                               an identity codec over Vec<u8> (6: arbitrary bytes, base64);
+//!                               variant bits: 1 blocking, 2 the named constructor of the encoding
+//!                               (new / new_str / new_miniserde / .. and their _blocking forms),
+//!                               4 Arc flavour on the server, 8 arena flavour in the browser;
 //!                               logs (13 b wire): the string handed over, and whether the real
 //!                               browser-side construction of the resource under a hydrating
 //!                               context holding that string yields the value
+//!          (15 rmode (child ..)) a real `<ErrorBoundary/>` rendered on the server: rmode 0 to_html,
+//!                               1 in-order stream, 2 out-of-order stream; logs (0 id) for the
+//!                               boundary, (13 ..) per resource, then (0 id) per error thrown
+//!          (16) -> (16 b): was the waker handed to the latest poll of the stream woken since?
+//!          (17) take_errors() -> (17 ((boundary id message) ..))
+//!          (18) await_deferred() -> (18 0) none | (18 1) pending | (18 2) ready
+//! child  : (0 text) Ok(text) | (1 text) Err(message) | (2 kind codec text variant) a resource
+//!          created in the children | (3 (child ..)) a nested boundary
 //! idsrc  : (0 n) the number n | (1 k) the k-th id handed out by next_id so far
-use futures::{Stream, StreamExt};
+use futures::Stream;
 use hydration_context::{
     HydrateSharedContext, PinnedFuture, PinnedStream, SerializedDataId, SharedContext,
     SsrSharedContext,
@@ -31,7 +52,8 @@ use leptos_server::{
         string::{FromToStringCodec, JsonSerdeCodec},
         Decoder, Encoder,
     },
-    FromEncodedStr, IntoEncodedString, OnceResource, Resource, SharedValue,
+    ArcOnceResource, ArcResource, FromEncodedStr, IntoEncodedString, OnceResource, Resource,
+    SharedValue,
 };
 use reactive_graph::owner::Owner;
 use std::{
@@ -40,7 +62,10 @@ use std::{
     future::Future,
     pin::Pin,
     rc::Rc,
-    sync::{Arc, Mutex},
+    sync::{
+        atomic::{AtomicBool, Ordering},
+        Arc, Mutex,
+    },
     task::{Context, Poll, RawWaker, RawWakerVTable, Wake, Waker},
 };
 use throw_error::{Error, ErrorId};
@@ -183,22 +208,103 @@ pub fn noop_waker() -> Waker {
     unsafe { Waker::from_raw(RawWaker::new(std::ptr::null(), &VT)) }
 }
 
+/// a waker that records that it was woken (one per poll of the stream)
+#[derive(Default)]
+struct FlagWaker(AtomicBool);
+impl Wake for FlagWaker {
+    fn wake(self: Arc<Self>) {
+        self.0.store(true, Ordering::SeqCst);
+    }
+}
+
+// ------------------------------------------------------------------ the server's context, observed
+/// Passes every call through to the real `SsrSharedContext` and records what `next_id` handed
+/// out (and whether the context was hydrating at that moment), so that the harness knows which
+/// ids code inside leptos (`ErrorBoundary`, `throw`, resources created in children) consumed.
+#[derive(Debug)]
+struct Spy {
+    inner: Arc<SsrSharedContext>,
+    calls: Mutex<Vec<(usize, bool)>>,
+}
+impl SharedContext for Spy {
+    fn is_browser(&self) -> bool {
+        self.inner.is_browser()
+    }
+    fn next_id(&self) -> SerializedDataId {
+        let hydrating = self.inner.get_is_hydrating();
+        let id = self.inner.next_id();
+        self.calls.lock().unwrap().push((id.clone().into_inner(), hydrating));
+        id
+    }
+    fn write_async(&self, id: SerializedDataId, fut: PinnedFuture<String>) {
+        self.inner.write_async(id, fut)
+    }
+    fn read_data(&self, id: &SerializedDataId) -> Option<String> {
+        self.inner.read_data(id)
+    }
+    fn await_data(&self, id: &SerializedDataId) -> Option<String> {
+        self.inner.await_data(id)
+    }
+    fn pending_data(&self) -> Option<PinnedStream<String>> {
+        self.inner.pending_data()
+    }
+    fn during_hydration(&self) -> bool {
+        self.inner.during_hydration()
+    }
+    fn hydration_complete(&self) {
+        self.inner.hydration_complete()
+    }
+    fn get_is_hydrating(&self) -> bool {
+        self.inner.get_is_hydrating()
+    }
+    fn set_is_hydrating(&self, is_hydrating: bool) {
+        self.inner.set_is_hydrating(is_hydrating)
+    }
+    fn take_errors(&self) -> Vec<(SerializedDataId, ErrorId, Error)> {
+        self.inner.take_errors()
+    }
+    fn errors(&self, boundary_id: &SerializedDataId) -> Vec<(ErrorId, Error)> {
+        self.inner.errors(boundary_id)
+    }
+    fn seal_errors(&self, boundary_id: &SerializedDataId) {
+        self.inner.seal_errors(boundary_id)
+    }
+    fn register_error(&self, b: SerializedDataId, e: ErrorId, error: Error) {
+        self.inner.register_error(b, e, error)
+    }
+    fn defer_stream(&self, wait_for: PinnedFuture<()>) {
+        self.inner.defer_stream(wait_for)
+    }
+    fn await_deferred(&self) -> Option<PinnedFuture<()>> {
+        self.inner.await_deferred()
+    }
+    fn set_incomplete_chunk(&self, id: SerializedDataId) {
+        self.inner.set_incomplete_chunk(id)
+    }
+    fn get_incomplete_chunk(&self, id: &SerializedDataId) -> bool {
+        self.inner.get_incomplete_chunk(id)
+    }
+}
+
 // ------------------------------------------------------------------ a browser-side context without a browser
 /// What `HydrateSharedContext` is in the browser, with `window.__RESOLVED_RESOURCES` replaced
-/// by a map: hydrating, ids counted up from `first_id`, `read_data` answers from the map.
+/// by a map (`read_data` is the only method of the real type that needs a JavaScript engine):
+/// everything else is answered by a real `HydrateSharedContext`.
 #[derive(Debug)]
 struct BrowserContext {
-    id: std::sync::atomic::AtomicUsize,
+    real: HydrateSharedContext,
     resolved: std::collections::BTreeMap<usize, String>,
 }
 impl SharedContext for BrowserContext {
     fn is_browser(&self) -> bool {
-        true
+        self.real.is_browser()
     }
     fn next_id(&self) -> SerializedDataId {
-        SerializedDataId::new(self.id.fetch_add(1, std::sync::atomic::Ordering::Relaxed))
+        self.real.next_id()
     }
-    fn write_async(&self, _id: SerializedDataId, _fut: PinnedFuture<String>) {}
+    fn write_async(&self, id: SerializedDataId, fut: PinnedFuture<String>) {
+        self.real.write_async(id, fut)
+    }
     fn read_data(&self, id: &SerializedDataId) -> Option<String> {
         self.resolved.get(&id.clone().into_inner()).cloned()
     }
@@ -206,73 +312,274 @@ impl SharedContext for BrowserContext {
         None
     }
     fn pending_data(&self) -> Option<PinnedStream<String>> {
-        None
+        self.real.pending_data()
     }
     fn during_hydration(&self) -> bool {
-        true
+        self.real.during_hydration()
     }
-    fn hydration_complete(&self) {}
+    fn hydration_complete(&self) {
+        self.real.hydration_complete()
+    }
     fn get_is_hydrating(&self) -> bool {
-        true
+        self.real.get_is_hydrating()
     }
-    fn set_is_hydrating(&self, _is_hydrating: bool) {}
+    fn set_is_hydrating(&self, is_hydrating: bool) {
+        self.real.set_is_hydrating(is_hydrating)
+    }
     fn take_errors(&self) -> Vec<(SerializedDataId, ErrorId, Error)> {
         vec![]
     }
     fn errors(&self, _boundary_id: &SerializedDataId) -> Vec<(ErrorId, Error)> {
         vec![]
     }
-    fn seal_errors(&self, _boundary_id: &SerializedDataId) {}
-    fn register_error(&self, _b: SerializedDataId, _e: ErrorId, _error: Error) {}
-    fn defer_stream(&self, _wait_for: PinnedFuture<()>) {}
-    fn await_deferred(&self) -> Option<PinnedFuture<()>> {
-        None
+    fn seal_errors(&self, b: &SerializedDataId) {
+        self.real.seal_errors(b)
     }
-    fn set_incomplete_chunk(&self, _id: SerializedDataId) {}
+    fn register_error(&self, b: SerializedDataId, e: ErrorId, error: Error) {
+        self.real.register_error(b, e, error)
+    }
+    fn defer_stream(&self, wait_for: PinnedFuture<()>) {
+        self.real.defer_stream(wait_for)
+    }
+    fn await_deferred(&self) -> Option<PinnedFuture<()>> {
+        self.real.await_deferred()
+    }
+    fn set_incomplete_chunk(&self, id: SerializedDataId) {
+        self.real.set_incomplete_chunk(id)
+    }
     fn get_incomplete_chunk(&self, _id: &SerializedDataId) -> bool {
         false
     }
 }
 
+// ------------------------------------------------------------------ values, encodings, constructors
+/// the value a case string stands for
+pub trait Val: Clone + PartialEq + Send + Sync + 'static {
+    fn of(s: &str) -> Self;
+}
+impl Val for String {
+    fn of(s: &str) -> Self {
+        s.to_string()
+    }
+}
+/// arbitrary bytes: every code point of the case string taken modulo 256
+impl Val for Vec<u8> {
+    fn of(s: &str) -> Self {
+        s.chars().map(|c| c as u32 as u8).collect()
+    }
+}
+
+/// An encoding with `Encoded = Vec<u8>` that hands the bytes over as they are (what rkyv,
+/// bitcode, msgpack .. produce is arbitrary bytes, not UTF-8).
+pub struct RawBytes;
+impl Encoder<Vec<u8>> for RawBytes {
+    type Error = ();
+    type Encoded = Vec<u8>;
+    fn encode(val: &Vec<u8>) -> Result<Vec<u8>, ()> {
+        Ok(val.clone())
+    }
+}
+impl Decoder<Vec<u8>> for RawBytes {
+    type Error = ();
+    type Encoded = [u8];
+    fn decode(val: &[u8]) -> Result<Vec<u8>, ()> {
+        Ok(val.to_vec())
+    }
+}
+
+fn fetch<T: Val>(g: Gate) -> impl Future<Output = T> + Send + 'static {
+    async move { T::of(&GateFuture(g).await) }
+}
+
+/// The constructors leptos_server names after an encoding (`new`, `new_str`, `new_rkyv`, ..,
+/// each with a `_blocking` form); `None`: the encoding has only `new_with_options` /
+/// `new_with_encoding`.
+trait Named<T: Val>: Sized + 'static {
+    const HAS_NAMED: bool = false;
+    fn arc_res(_blocking: bool, _g: Gate) -> Option<ArcResource<T, Self>> {
+        None
+    }
+    fn res(_blocking: bool, _g: Gate) -> Option<Resource<T, Self>> {
+        None
+    }
+    fn arc_once(_blocking: bool, _g: Gate) -> Option<ArcOnceResource<T, Self>> {
+        None
+    }
+    fn once(_blocking: bool, _g: Gate) -> Option<OnceResource<T, Self>> {
+        None
+    }
+    fn shared(_v: Box<dyn FnOnce() -> T>) -> Option<SharedValue<T, Self>> {
+        None
+    }
+}
+macro_rules! named {
+    ($ser:ty, $new:ident, $new_blocking:ident, $sv:ident) => {
+        impl Named<String> for $ser {
+            const HAS_NAMED: bool = true;
+            fn arc_res(blocking: bool, g: Gate) -> Option<ArcResource<String, Self>> {
+                Some(if blocking {
+                    ArcResource::$new_blocking(|| (), move |_| fetch::<String>(g.clone()))
+                } else {
+                    ArcResource::$new(|| (), move |_| fetch::<String>(g.clone()))
+                })
+            }
+            fn res(blocking: bool, g: Gate) -> Option<Resource<String, Self>> {
+                Some(if blocking {
+                    Resource::$new_blocking(|| (), move |_| fetch::<String>(g.clone()))
+                } else {
+                    Resource::$new(|| (), move |_| fetch::<String>(g.clone()))
+                })
+            }
+            fn arc_once(blocking: bool, g: Gate) -> Option<ArcOnceResource<String, Self>> {
+                Some(if blocking {
+                    ArcOnceResource::$new_blocking(fetch::<String>(g))
+                } else {
+                    ArcOnceResource::$new(fetch::<String>(g))
+                })
+            }
+            fn once(blocking: bool, g: Gate) -> Option<OnceResource<String, Self>> {
+                Some(if blocking {
+                    OnceResource::$new_blocking(fetch::<String>(g))
+                } else {
+                    OnceResource::$new(fetch::<String>(g))
+                })
+            }
+            fn shared(v: Box<dyn FnOnce() -> String>) -> Option<SharedValue<String, Self>> {
+                Some(SharedValue::$sv(v))
+            }
+        }
+    };
+}
+named!(JsonSerdeCodec, new, new_blocking, new);
+named!(FromToStringCodec, new_str, new_str_blocking, new_str);
+impl Named<String> for FromToBytesCodec {}
+impl Named<Vec<u8>> for RawBytes {}
+#[cfg(feature = "full")]
+mod optional_encodings {
+    use super::*;
+    pub use leptos_server::codee::{binary::RkyvCodec, string::MiniserdeCodec, SerdeLite};
+    named!(MiniserdeCodec, new_miniserde, new_miniserde_blocking, new_miniserde);
+    named!(SerdeLite<JsonSerdeCodec>, new_serde_lite, new_serde_lite_blocking, new_serde_lite);
+    named!(RkyvCodec, new_rkyv, new_rkyv_blocking, new_rkyv);
+}
+#[cfg(feature = "full")]
+use optional_encodings::*;
+
+const V_BLOCKING: i64 = 1;
+const V_NAMED: i64 = 2;
+const V_ARC_SERVER: i64 = 4;
+const V_ARENA_BROWSER: i64 = 8;
+
+type Kept = Box<dyn std::any::Any>;
+
+/// creates the resource `kind` with the constructor `variant` selects; the caller runs this
+/// under the owner it wants
+fn construct<T, Ser>(kind: i64, variant: i64, arc: bool, g: Gate, value: T) -> Kept
+where
+    T: Val,
+    Ser: Named<T> + Encoder<T> + Decoder<T> + 'static,
+    <Ser as Encoder<T>>::Error: std::fmt::Debug,
+    <Ser as Decoder<T>>::Error: std::fmt::Debug,
+    <<Ser as Decoder<T>>::Encoded as FromEncodedStr>::DecodingError: std::fmt::Debug,
+    <Ser as Encoder<T>>::Encoded: IntoEncodedString,
+    <Ser as Decoder<T>>::Encoded: FromEncodedStr,
+{
+    let blocking = variant & V_BLOCKING != 0;
+    let named = variant & V_NAMED != 0;
+    match (kind, arc) {
+        (2, _) => {
+            let init: Box<dyn FnOnce() -> T> = Box::new(move || value);
+            if named && Ser::HAS_NAMED {
+                Box::new(Ser::shared(init).expect("named SharedValue constructor")) as Kept
+            } else {
+                Box::new(SharedValue::<T, Ser>::new_with_encoding(init)) as Kept
+            }
+        }
+        (0, true) => {
+            let r = named.then(|| Ser::arc_res(blocking, g.clone())).flatten().unwrap_or_else(|| {
+                ArcResource::<T, Ser>::new_with_options(|| (), move |_| fetch::<T>(g.clone()), blocking)
+            });
+            Box::new(r) as Kept
+        }
+        (0, false) => {
+            let r = named.then(|| Ser::res(blocking, g.clone())).flatten().unwrap_or_else(|| {
+                Resource::<T, Ser>::new_with_options(|| (), move |_| fetch::<T>(g.clone()), blocking)
+            });
+            Box::new(r) as Kept
+        }
+        (_, true) => {
+            let r = named
+                .then(|| Ser::arc_once(blocking, g.clone()))
+                .flatten()
+                .unwrap_or_else(|| ArcOnceResource::<T, Ser>::new_with_options(fetch::<T>(g), blocking));
+            Box::new(r) as Kept
+        }
+        (_, false) => {
+            let r = named
+                .then(|| Ser::once(blocking, g.clone()))
+                .flatten()
+                .unwrap_or_else(|| OnceResource::<T, Ser>::new_with_options(fetch::<T>(g), blocking));
+            Box::new(r) as Kept
+        }
+    }
+}
+
+const MARK: &str = "\u{1}computed again in the browser\u{1}";
+
 /// The real browser-side construction of a Resource / OnceResource / SharedValue with codec
 /// `Ser`, under an Owner whose shared context hands out `id` next and holds `wire` under it:
 /// the value it hydrates with (`None`: it found nothing it could decode).
-fn hydrate_in_browser<Ser>(kind: i64, id: usize, wire: &str) -> Option<String>
+fn hydrate_in_browser<T, Ser>(kind: i64, variant: i64, id: usize, wire: &str) -> Option<T>
 where
-    Ser: Encoder<String> + Decoder<String> + 'static,
-    <Ser as Encoder<String>>::Error: std::fmt::Debug,
-    <Ser as Decoder<String>>::Error: std::fmt::Debug,
-    <<Ser as Decoder<String>>::Encoded as FromEncodedStr>::DecodingError: std::fmt::Debug,
-    <Ser as Encoder<String>>::Encoded: IntoEncodedString,
-    <Ser as Decoder<String>>::Encoded: FromEncodedStr,
+    T: Val,
+    Ser: Named<T> + Encoder<T> + Decoder<T> + 'static,
+    <Ser as Encoder<T>>::Error: std::fmt::Debug,
+    <Ser as Decoder<T>>::Error: std::fmt::Debug,
+    <<Ser as Decoder<T>>::Encoded as FromEncodedStr>::DecodingError: std::fmt::Debug,
+    <Ser as Encoder<T>>::Encoded: IntoEncodedString,
+    <Ser as Decoder<T>>::Encoded: FromEncodedStr,
 {
     use reactive_graph::traits::GetUntracked;
-    let cx = BrowserContext {
-        id: std::sync::atomic::AtomicUsize::new(id),
-        resolved: [(id, wire.to_string())].into_iter().collect(),
-    };
+    // what leptos::mount::hydrate_body constructs in the browser, `id` calls later
+    let real = HydrateSharedContext::new();
+    for _ in 0..id {
+        real.next_id();
+    }
+    let cx = BrowserContext { real, resolved: [(id, wire.to_string())].into_iter().collect() };
     let owner = Owner::new_root(Some(Arc::new(cx) as Arc<dyn SharedContext + Send + Sync>));
-    let out = owner.with(|| match kind {
-        2 => {
-            const MARK: &str = "\u{1}computed again in the browser\u{1}";
-            let v = SharedValue::<String, Ser>::new_with_encoding(|| MARK.to_string()).into_inner();
-            (v != MARK).then_some(v)
+    let arc = variant & V_ARENA_BROWSER == 0;
+    let out = owner.with(|| {
+        let kept = construct::<T, Ser>(
+            kind,
+            variant & (V_BLOCKING | V_NAMED),
+            arc,
+            Gate::default(),
+            T::of(MARK),
+        );
+        // resources are read through the inner async value: their own read warns on stderr
+        // about reads outside <Suspense/>
+        match (kind, arc) {
+            (2, _) => {
+                let v = kept.downcast::<SharedValue<T, Ser>>().expect("SharedValue").into_inner();
+                (v != T::of(MARK)).then_some(v)
+            }
+            (0, true) => {
+                let r = kept.downcast::<ArcResource<T, Ser>>().expect("ArcResource");
+                std::ops::Deref::deref(&*r).get_untracked()
+            }
+            (0, false) => {
+                let r = kept.downcast::<Resource<T, Ser>>().expect("Resource");
+                std::ops::Deref::deref(&*r).get_untracked()
+            }
+            (_, true) => kept
+                .downcast::<ArcOnceResource<T, Ser>>()
+                .expect("ArcOnceResource")
+                .get_untracked(),
+            (_, false) => kept
+                .downcast::<OnceResource<T, Ser>>()
+                .expect("OnceResource")
+                .get_untracked(),
         }
-        0 => {
-            // read through the inner async value: ArcResource's own read warns on stderr
-            // about reads outside <Suspense/>
-            let res = leptos_server::ArcResource::<String, Ser>::new_with_options(
-                || (),
-                |_| GateFuture(Gate::default()),
-                false,
-            );
-            std::ops::Deref::deref(&res).get_untracked()
-        }
-        _ => leptos_server::ArcOnceResource::<String, Ser>::new_with_options(
-            GateFuture(Gate::default()),
-            false,
-        )
-        .get_untracked(),
     });
     run_until_idle();
     drop(owner);
@@ -281,7 +588,7 @@ where
 
 // ------------------------------------------------------------------ helpers
 #[derive(Debug, Clone)]
-struct Msg(String);
+pub struct Msg(pub String);
 impl std::fmt::Display for Msg {
     fn fmt(&self, f: &mut std::fmt::Formatter<'_>) -> std::fmt::Result {
         f.write_str(&self.0)
@@ -322,9 +629,58 @@ fn debug_classes(s: &str) -> Sexp {
         .collect())
 }
 
+// ------------------------------------------------------------------ real <ErrorBoundary/>s
+/// what the children of a boundary are made of (everything `Send`: the children closure of a
+/// component has to be)
+enum Child {
+    Ok(String),
+    Err(String),
+    /// creates the resource (and parks it in `KEEP`) when the children are built
+    Res(Box<dyn FnOnce() + Send>),
+    Nested(Vec<Child>),
+}
+thread_local! {
+    static KEEP: RefCell<Vec<Kept>> = const { RefCell::new(Vec::new()) };
+}
+mod boundary {
+    use super::{Child, Msg};
+    use leptos::prelude::*;
+
+    fn build_children(children: Vec<Child>) -> Vec<AnyView> {
+        children
+            .into_iter()
+            .map(|c| match c {
+                Child::Ok(t) => Ok::<String, Msg>(t).into_any(),
+                Child::Err(m) => Err::<String, Msg>(Msg(m)).into_any(),
+                Child::Res(make) => {
+                    make();
+                    ().into_any()
+                }
+                Child::Nested(ch) => boundary_view(ch).into_any(),
+            })
+            .collect()
+    }
+    fn boundary_view(children: Vec<Child>) -> impl IntoView {
+        view! { <ErrorBoundary fallback=|_errors| "fallback">{build_children(children)}</ErrorBoundary> }
+    }
+    /// constructs the boundary (and, inside it, its children) and renders it on the server
+    pub fn render(children: Vec<Child>, rmode: i64) {
+        let view = boundary_view(children).into_view();
+        match rmode {
+            0 => drop(view.to_html()),
+            1 => drop(view.to_html_stream_in_order()),
+            _ => drop(view.to_html_stream_out_of_order()),
+        }
+    }
+}
+
+type HtmlStream = Pin<Box<dyn Stream<Item = String> + Send>>;
+
 struct Session {
     sc: Arc<dyn SharedContext + Send + Sync>,
-    ssr: Arc<SsrSharedContext>,
+    ssr: Option<Arc<SsrSharedContext>>,
+    spy: Option<Arc<Spy>>,
+    response: Option<Pin<Box<dyn Future<Output = HtmlStream> + Send>>>,
     client: HydrateSharedContext,
     islands: bool,
     owner: Owner,
@@ -332,10 +688,17 @@ struct Session {
     client_ids: Vec<usize>,
     gates: Vec<Gate>,
     payloads: Vec<String>,
-    stream: Option<PinnedStream<String>>,
+    stream: Option<HtmlStream>,
     ended: bool,
+    last_waker: Option<Arc<FlagWaker>>,
     log: Vec<Sexp>,
-    keep: Vec<Box<dyn std::any::Any>>,
+    keep: Vec<Kept>,
+}
+
+/// a resource command, prepared: what to log, and how to create it under the current owner
+struct Prepared {
+    entry: Sexp,
+    make: Box<dyn FnOnce() -> Kept + Send>,
 }
 
 impl Session {
@@ -360,7 +723,10 @@ impl Session {
             self.log.push(Lst(vec![Num(8), Num(3)]));
             return;
         };
-        let waker = noop_waker();
+        // a fresh waker for every poll: the one that has to be woken is the latest
+        let flag = Arc::new(FlagWaker::default());
+        self.last_waker = Some(Arc::clone(&flag));
+        let waker = Waker::from(flag);
         let mut cx = Context::from_waker(&waker);
         match stream.as_mut().poll_next(&mut cx) {
             Poll::Ready(Some(chunk)) => self.log.push(Lst(vec![Num(8), Num(0), cps(&chunk)])),
@@ -372,8 +738,19 @@ impl Session {
         }
     }
     fn start_stream(&mut self) {
-        if self.stream.is_none() {
-            self.stream = self.sc.pending_data();
+        if self.stream.is_some() {
+            return;
+        }
+        if let Some(mut response) = self.response.take() {
+            // build_response: the future runs the app and calls pending_data() itself
+            let waker = noop_waker();
+            let mut cx = Context::from_waker(&waker);
+            match response.as_mut().poll(&mut cx) {
+                Poll::Ready(stream) => self.stream = Some(stream),
+                Poll::Pending => panic!("build_response did not hand over its stream at once"),
+            }
+        } else {
+            self.stream = self.sc.pending_data().map(|s| s as HtmlStream);
         }
     }
     fn complete(&mut self, k: usize) {
@@ -382,58 +759,58 @@ impl Session {
         }
     }
 
-    /// cmd 12 with the codec `Ser`: first the pure pair check (the real server-side encoding
-    /// handed to the real client-side decoding: `Ser::encode` -> `IntoEncodedString` ->
-    /// `FromEncodedStr` -> `Ser::decode`), then the real Resource / OnceResource / SharedValue
-    fn resource<Ser>(&mut self, kind: i64, payload: String)
+    /// cmd 12 with the codec `Ser` over values `T`: the string the real server-side encoding
+    /// hands over (`Ser::encode` -> `IntoEncodedString`), what the real browser-side
+    /// construction of the same resource makes of exactly that string (under an arbitrary id),
+    /// and the closure that creates the real Resource / OnceResource / SharedValue
+    fn prepare<T, Ser>(&mut self, kind: i64, variant: i64, payload: String) -> Prepared
     where
-        Ser: Encoder<String> + Decoder<String> + 'static,
-        <Ser as Encoder<String>>::Error: std::fmt::Debug,
-        <Ser as Decoder<String>>::Error: std::fmt::Debug,
-        <<Ser as Decoder<String>>::Encoded as FromEncodedStr>::DecodingError: std::fmt::Debug,
-        <Ser as Encoder<String>>::Encoded: IntoEncodedString,
-        <Ser as Decoder<String>>::Encoded: FromEncodedStr,
+        T: Val,
+        Ser: Named<T> + Encoder<T> + Decoder<T> + 'static,
+        <Ser as Encoder<T>>::Error: std::fmt::Debug,
+        <Ser as Decoder<T>>::Error: std::fmt::Debug,
+        <<Ser as Decoder<T>>::Encoded as FromEncodedStr>::DecodingError: std::fmt::Debug,
+        <Ser as Encoder<T>>::Encoded: IntoEncodedString,
+        <Ser as Decoder<T>>::Encoded: FromEncodedStr,
     {
-        // the string the server hands over, and what the real browser-side construction of the
-        // same resource makes of exactly that string (under an arbitrary id)
-        let wire = Ser::encode(&payload).unwrap().into_encoded_string();
-        let back = hydrate_in_browser::<Ser>(kind, 3, &wire);
-        self.log.push(Lst(vec![
-            Num(13),
-            Sexp::bool(back.as_ref() == Some(&payload)),
-            cps(&wire),
-        ]));
-
-        let hydrating = self.sc.get_is_hydrating();
+        let value = T::of(&payload);
+        let wire = Ser::encode(&value).unwrap().into_encoded_string();
+        let back = hydrate_in_browser::<T, Ser>(kind, variant, 3, &wire);
+        let entry = Lst(vec![Num(13), Sexp::bool(back.as_ref() == Some(&value)), cps(&wire)]);
+        let gate = if kind == 2 { Gate::default() } else { self.new_gate(payload) };
+        let arc = variant & V_ARC_SERVER != 0;
+        Prepared {
+            entry,
+            make: Box::new(move || construct::<T, Ser>(kind, variant, arc, gate, value)),
+        }
+    }
+    fn prepare_codec(&mut self, kind: i64, codec: i64, variant: i64, payload: String) -> Prepared {
+        match codec {
+            0 => self.prepare::<String, JsonSerdeCodec>(kind, variant, payload),
+            1 => self.prepare::<String, FromToStringCodec>(kind, variant, payload),
+            2 => self.prepare::<String, FromToBytesCodec>(kind, variant, payload),
+            #[cfg(feature = "full")]
+            3 => self.prepare::<String, MiniserdeCodec>(kind, variant, payload),
+            #[cfg(feature = "full")]
+            4 => self.prepare::<String, SerdeLite<JsonSerdeCodec>>(kind, variant, payload),
+            #[cfg(feature = "full")]
+            5 => self.prepare::<String, RkyvCodec>(kind, variant, payload),
+            6 => self.prepare::<Vec<u8>, RawBytes>(kind, variant, payload),
+            other => panic!("encoding {other} is not built into this binary"),
+        }
+    }
+    /// the browser runs the same program; in islands mode only its hydrated parts
+    fn browser_repeats(&mut self, hydrating: bool) {
         if !self.islands || hydrating {
             self.client_ids.push(self.client.next_id().into_inner());
         }
-        let owner = self.owner.clone();
-        type Kept = Box<dyn std::any::Any>;
-        let kept: Kept = if kind == 2 {
-            owner.with(|| {
-                Box::new(SharedValue::<String, Ser>::new_with_encoding(move || payload)) as Kept
-            })
-        } else {
-            let g = self.new_gate(payload);
-            owner.with(|| match kind {
-                0 => Box::new(Resource::<String, Ser>::new_with_options(
-                    || (),
-                    move |_| GateFuture(g.clone()),
-                    false,
-                )) as Kept,
-                _ => Box::new(OnceResource::<String, Ser>::new_with_options(GateFuture(g), false))
-                    as Kept,
-            })
-        };
-        self.keep.push(kept);
     }
 
     /// cmd 14: `SsrSharedContext::consume_buffers()`, the other way data leaves the context.
     /// The future is polled; whenever it is pending the next unfinished future of `order`
     /// (then the lowest-numbered one) is completed.
     fn consume(&mut self, order: &Sexp) {
-        let ssr = Arc::clone(&self.ssr);
+        let ssr = Arc::clone(self.ssr.as_ref().expect("consume_buffers needs mode 0 / 1 / 4"));
         let mut fut: Pin<Box<dyn Future<Output = Vec<(SerializedDataId, String)>>>> =
             Box::pin(async move { ssr.consume_buffers().await });
         let mut order: VecDeque<usize> = order.list().iter().map(|k| k.num() as usize).collect();
@@ -474,6 +851,74 @@ impl Session {
         ]));
     }
 
+    /// cmd 15: a real `<ErrorBoundary/>` whose children throw, create resources and nest
+    /// further boundaries, rendered on the server. Which ids leptos consumed (in which order,
+    /// hydrating or not) is read off the observing context afterwards and attributed to the
+    /// parts of the case in the order the component contract fixes: construction (boundary,
+    /// then its children, depth first), then rendering (errors, depth first).
+    fn error_boundary(&mut self, rmode: i64, children: &Sexp) {
+        let spy = Arc::clone(self.spy.as_ref().expect("<ErrorBoundary/> needs mode 0 / 1 / 4"));
+        let first = spy.calls.lock().unwrap().len();
+        enum Step {
+            Boundary,
+            Resource(Sexp),
+            Error,
+        }
+        fn parse(s: &mut Session, children: &Sexp, construct: &mut Vec<Step>, render: &mut Vec<Step>) -> Vec<Child> {
+            // the boundary takes its id before its children are built
+            construct.push(Step::Boundary);
+            let mut out = vec![];
+            for c in children.list() {
+                match c.at(0).num() {
+                    0 => out.push(Child::Ok(text(c.at(1)))),
+                    1 => {
+                        render.push(Step::Error);
+                        out.push(Child::Err(text(c.at(1))));
+                    }
+                    2 => {
+                        let p = s.prepare_codec(c.at(1).num(), c.at(2).num(), c.at(4).num(), text(c.at(3)));
+                        construct.push(Step::Resource(p.entry));
+                        let make = p.make;
+                        out.push(Child::Res(Box::new(move || {
+                            let kept = make();
+                            KEEP.with(|k| k.borrow_mut().push(kept));
+                        })));
+                    }
+                    _ => {
+                        // a nested boundary is constructed where it stands; its errors are
+                        // thrown when the rendering walk reaches it
+                        let nested = parse(s, c.at(1), construct, render);
+                        out.push(Child::Nested(nested));
+                    }
+                }
+            }
+            out
+        }
+        let mut construct = vec![];
+        let mut render = vec![];
+        let tree = parse(self, children, &mut construct, &mut render);
+        let owner = self.owner.clone();
+        owner.with(|| boundary::render(tree, rmode));
+        self.keep.extend(KEEP.with(|k| std::mem::take(&mut *k.borrow_mut())));
+
+        let calls: Vec<(usize, bool)> = spy.calls.lock().unwrap()[first..].to_vec();
+        let steps: Vec<Step> = construct.into_iter().chain(render).collect();
+        if calls.len() != steps.len() {
+            // not what the component contract says: make it visible
+            self.log.push(Lst(vec![Num(95), Num(steps.len() as i64), Num(calls.len() as i64)]));
+        }
+        for (step, (id, hydrating)) in steps.into_iter().zip(calls) {
+            match step {
+                Step::Boundary | Step::Error => {
+                    self.ids.push(id);
+                    self.log.push(Lst(vec![Num(0), dec(id)]));
+                }
+                Step::Resource(entry) => self.log.push(entry),
+            }
+            self.browser_repeats(hydrating);
+        }
+    }
+
     fn cmd(&mut self, c: &Sexp) {
         match c.at(0).num() {
             0 => {
@@ -481,10 +926,7 @@ impl Session {
                 let id = self.sc.next_id().into_inner();
                 self.ids.push(id);
                 self.log.push(Lst(vec![Num(0), dec(id)]));
-                // the browser runs the same program; in islands mode only its hydrated parts
-                if !self.islands || hydrating {
-                    self.client_ids.push(self.client.next_id().into_inner());
-                }
+                self.browser_repeats(hydrating);
             }
             1 => self.sc.set_is_hydrating(c.at(1).num() != 0),
             2 => {
@@ -526,40 +968,118 @@ impl Session {
                     .push(Lst(vec![Num(10), Sexp::bool(self.sc.get_incomplete_chunk(&b))]));
             }
             12 => {
-                let kind = c.at(1).num();
-                let payload = text(c.at(3));
-                match c.at(2).num() {
-                    0 => self.resource::<JsonSerdeCodec>(kind, payload),
-                    1 => self.resource::<FromToStringCodec>(kind, payload),
-                    _ => self.resource::<FromToBytesCodec>(kind, payload),
-                }
+                let p = self.prepare_codec(c.at(1).num(), c.at(2).num(), c.at(4).num(), text(c.at(3)));
+                self.log.push(p.entry);
+                let hydrating = self.sc.get_is_hydrating();
+                self.browser_repeats(hydrating);
+                let owner = self.owner.clone();
+                let kept = owner.with(p.make);
+                self.keep.push(kept);
             }
             14 => self.consume(c.at(1)),
+            15 => self.error_boundary(c.at(1).num(), c.at(2)),
+            16 => {
+                let woken = self
+                    .last_waker
+                    .as_ref()
+                    .map(|w| w.0.load(Ordering::SeqCst))
+                    .unwrap_or(false);
+                self.log.push(Lst(vec![Num(16), Sexp::bool(woken)]));
+            }
+            17 => {
+                let es = self.sc.take_errors();
+                self.log.push(Lst(vec![
+                    Num(17),
+                    Lst(es
+                        .into_iter()
+                        .map(|(b, id, e)| {
+                            Lst(vec![dec(b.into_inner()), cps(&id.to_string()), cps(&e.to_string())])
+                        })
+                        .collect()),
+                ]));
+            }
+            18 => {
+                let state = match self.sc.await_deferred() {
+                    None => 0,
+                    Some(mut fut) => {
+                        let waker = noop_waker();
+                        let mut cx = Context::from_waker(&waker);
+                        match fut.as_mut().poll(&mut cx) {
+                            Poll::Pending => {
+                                // not lost: a blocking resource is still waited for
+                                self.sc.defer_stream(fut);
+                                1
+                            }
+                            Poll::Ready(()) => 2,
+                        }
+                    }
+                };
+                self.log.push(Lst(vec![Num(18), Num(state)]));
+            }
             _ => {}
         }
         run_until_idle();
     }
 }
 
+#[cfg(feature = "full")]
+fn response_session(nonce: bool) -> (Owner, Pin<Box<dyn Future<Output = HtmlStream> + Send>>) {
+    use leptos_integration_utils::{BoxedFnOnce, PinnedFuture as RFuture, PinnedStream as RStream};
+    // the smallest possible integration: no application HTML, the hydration scripts only
+    fn stream_builder(
+        _app: (),
+        chunks: BoxedFnOnce<RStream<String>>,
+        _supports_ooo: bool,
+    ) -> RFuture<RStream<String>> {
+        Box::pin(async move { chunks() })
+    }
+    let additional_context: Box<dyn FnOnce() + Send> = if nonce {
+        Box::new(leptos::nonce::provide_nonce)
+    } else {
+        Box::new(|| ())
+    };
+    leptos_integration_utils::build_response(|| (), additional_context, stream_builder, false)
+}
+
 fn session(c: &Sexp) -> Sexp {
     init_executor();
     reset_executor();
-    let islands = c.at(1).num() != 0;
-    let ssr: Arc<SsrSharedContext> = if islands {
-        Arc::new(SsrSharedContext::new_islands())
-    } else {
-        Arc::new(SsrSharedContext::new())
+    let mode = c.at(1).num();
+    let (sc, ssr, spy, response, owner): (
+        Arc<dyn SharedContext + Send + Sync>,
+        Option<Arc<SsrSharedContext>>,
+        Option<Arc<Spy>>,
+        Option<Pin<Box<dyn Future<Output = HtmlStream> + Send>>>,
+        Owner,
+    ) = match mode {
+        #[cfg(feature = "full")]
+        2 | 3 => {
+            let (owner, response) = response_session(mode == 3);
+            let sc = owner.shared_context().expect("build_response provides a shared context");
+            (sc, None, None, Some(response), owner)
+        }
+        _ => {
+            let ssr: Arc<SsrSharedContext> = Arc::new(match mode {
+                0 => SsrSharedContext::new(),
+                1 => SsrSharedContext::new_islands(),
+                4 => SsrSharedContext::default(),
+                other => panic!("mode {other} is not built into this binary"),
+            });
+            let spy = Arc::new(Spy { inner: Arc::clone(&ssr), calls: Mutex::new(vec![]) });
+            let sc: Arc<dyn SharedContext + Send + Sync> = spy.clone();
+            let owner = Owner::new_root(Some(Arc::clone(&sc)));
+            (sc, Some(ssr), Some(spy), None, owner)
+        }
     };
-    let sc: Arc<dyn SharedContext + Send + Sync> = ssr.clone();
-    // what leptos::mount::{hydrate_body, hydrate_islands} construct in the browser
-    let client = HydrateSharedContext::new();
-    if islands {
-        client.set_is_hydrating(false);
-    }
-    let owner = Owner::new_root(Some(Arc::clone(&sc)));
+    // a context that does not hydrate from the start is an islands page: what
+    // leptos::mount::{hydrate_body, hydrate_islands} construct in the browser
+    let islands = !sc.get_is_hydrating();
+    let client = if islands { HydrateSharedContext::new_islands() } else { HydrateSharedContext::new() };
     let mut s = Session {
         sc,
         ssr,
+        spy,
+        response,
         client,
         islands,
         owner,
@@ -569,6 +1089,7 @@ fn session(c: &Sexp) -> Sexp {
         payloads: vec![],
         stream: None,
         ended: false,
+        last_waker: None,
         log: vec![],
         keep: vec![],
     };
